@@ -52,7 +52,7 @@ type Link struct {
 }
 
 type Term struct {
-	Kind  string `json:"kind"` // xdy | fate | coc
+	Kind  string `json:"kind"` // xdy | fate | coc | wod | dc (the last two only in non-exploding configurations)
 	Upper bool   `json:"upper,omitempty"`
 	// xdy: X and/or Y may be omitted (dY, Xd, d)
 	X      *Num   `json:"x,omitempty"`
@@ -65,6 +65,10 @@ type Term struct {
 	// coc
 	Bonus bool `json:"bonus,omitempty"`
 	N     int  `json:"n,omitempty"` // -1: omitted (means 1)
+	// wod XaAmYkK / dc XcAmY: X pool, A add-dice line (0 or above the number of sides: no further rounds), Y sides, K success line (>=)
+	A      int64 `json:"a,omitempty"`
+	K      *Num  `json:"k,omitempty"`
+	KFirst bool  `json:"kfirst,omitempty"`
 }
 
 type Expr struct {
@@ -149,6 +153,34 @@ func (t *Term) print(sb *strings.Builder) {
 		sb.WriteString(l)
 		if t.N >= 0 {
 			fmt.Fprintf(sb, "%d", t.N)
+		}
+	case "wod", "dc":
+		up := func(l string) string {
+			if t.Upper {
+				return strings.ToUpper(l)
+			}
+			return l
+		}
+		if t.X != nil {
+			t.X.print(sb)
+		}
+		if t.Kind == "dc" {
+			sb.WriteString(up("c"))
+		} else {
+			sb.WriteString(up("a"))
+		}
+		fmt.Fprintf(sb, "%d", t.A)
+		if t.K != nil && t.KFirst {
+			sb.WriteString(up("k"))
+			t.K.print(sb)
+		}
+		if t.Y != nil {
+			sb.WriteString(up("m"))
+			t.Y.print(sb)
+		}
+		if t.K != nil && !t.KFirst {
+			sb.WriteString(up("k"))
+			t.K.print(sb)
 		}
 	default:
 		if t.X != nil {
@@ -469,7 +501,9 @@ func runVM(c *Case, src string, mode int, seed uint64, unseeded bool) runOut {
 	}
 	vm.Config.EnableDiceCoC = true
 	vm.Config.EnableDiceFate = true
-	vm.Config.OpCountLimit = 30000
+	vm.Config.EnableDiceWoD = true
+	vm.Config.EnableDiceDoubleCross = true
+	vm.Config.OpCountLimit = 1000000
 	vm.Config.DefaultDiceSideExpr = c.DefaultSides
 	switch {
 	case mode < 0:
@@ -516,6 +550,10 @@ func modeName(m int) string {
 // syntax with positive counts and sides, so an error, a panic or unparsed rest is a failure of its own kind.
 func runProblem(c *Case, s *rt.Section, src string, o runOut, mode int) *rt.Failure {
 	m := modeName(mode)
+	if o.pi == nil && strings.Contains(o.err, "算力上限") {
+		// the configured operation budget (a net, 1e6) was hit: not a subject of this property
+		return &rt.Failure{Signature: discardOpLimit}
+	}
 	if o.pi != nil {
 		return s.NewFailure("no-panic", o.pi.Sig(), c, fmt.Sprintf("%s mode, %q: panic %s", m, src, o.pi.Value), "a value")
 	}
@@ -531,6 +569,9 @@ func runProblem(c *Case, s *rt.Section, src string, o runOut, mode int) *rt.Fail
 	return nil
 }
 
+const discardOpLimit = "discard:op-count-limit"
+
+// checkCase is the oracle; a returned failure whose signature is discardOpLimit means "case not judged".
 func checkCase(c *Case, s *rt.Section, skipPenaltyLow bool) *rt.Failure {
 	src := printCase(c)
 	seed0 := uint64(1)
@@ -724,9 +765,48 @@ func genXdY(t *rapid.T, o genOpts) *Term {
 	return tt
 }
 
+// genPool: WoD / Double Cross in the configurations that cannot add dice (documented: "若Y=0则不加骰"; an add line
+// above the number of sides is never reached) and that are monotone in their dice (success line k, never q).
+func genPool(t *rapid.T) *Term {
+	tt := &Term{N: -1, Upper: rapid.IntRange(0, 4).Draw(t, "upperP") == 4}
+	sides := int64(10)
+	if rapid.Bool().Draw(t, "m-given") {
+		sides = rapid.Int64Range(1, 12).Draw(t, "m")
+		tt.Y = &Num{V: sides}
+	}
+	if rapid.Bool().Draw(t, "dc") {
+		tt.Kind = "dc"
+		tt.X = &Num{V: rapid.Int64Range(1, 12).Draw(t, "pool")}
+		tt.A = sides + rapid.Int64Range(1, 3).Draw(t, "above")
+		if tt.A < 2 {
+			tt.A = 2
+		}
+		return tt
+	}
+	tt.Kind = "wod"
+	if rapid.IntRange(0, 3).Draw(t, "pool-given") != 0 {
+		tt.X = &Num{V: rapid.Int64Range(1, 12).Draw(t, "pool")}
+	}
+	if rapid.Bool().Draw(t, "a-zero") {
+		tt.A = 0
+	} else {
+		tt.A = sides + rapid.Int64Range(1, 3).Draw(t, "above")
+		if tt.A < 2 {
+			tt.A = 2
+		}
+	}
+	if rapid.IntRange(0, 2).Draw(t, "k-given") != 0 {
+		tt.K = &Num{V: rapid.Int64Range(1, sides+1).Draw(t, "k")}
+		tt.KFirst = rapid.Bool().Draw(t, "k-first")
+	}
+	return tt
+}
+
 func genTerm(t *rapid.T, o genOpts) *Term {
-	k := rapid.IntRange(0, 9).Draw(t, "term-kind")
+	k := rapid.IntRange(0, 10).Draw(t, "term-kind")
 	switch {
+	case k == 10:
+		return genPool(t)
 	case k == 0 && !o.nonNeg:
 		return &Term{Kind: "fate", N: -1, Upper: rapid.IntRange(0, 3).Draw(t, "upperF") == 3}
 	case k <= 2:
@@ -751,6 +831,8 @@ func termMax(t *Term) float64 {
 		return 4
 	case "coc":
 		return 100
+	case "wod", "dc":
+		return 20
 	}
 	nv := func(n *Num, d float64) float64 {
 		if n == nil {
@@ -926,6 +1008,12 @@ func classify(c *Case, s *rt.Section) (nonTrivial bool) {
 			} else {
 				s.Class("term:coc-penalty")
 			}
+			nonTrivial = true
+		case "wod":
+			s.Class("term:wod-no-add-dice")
+			nonTrivial = true
+		case "dc":
+			s.Class("term:dc-no-add-dice")
 			nonTrivial = true
 		default:
 			form := "XdY"
@@ -1244,7 +1332,7 @@ func enumerate(s *rt.Section, run *rt.Run, sp enumSpace, skipPenaltyLow bool) {
 			s.Sample(rt.Hash(c.Src), c.Src)
 		}
 		s.Crumb(c)
-		return s.Report(nil, checkCase(c, s, skipPenaltyLow))
+		return s.Report(nil, judged(s, checkCase(c, s, skipPenaltyLow)))
 	}
 	for _, x := range sp.xs {
 		for _, y := range sp.ys {
@@ -1281,11 +1369,20 @@ func enumerate(s *rt.Section, run *rt.Run, sp enumSpace, skipPenaltyLow bool) {
 
 // ---------------------------------------------------------------------------
 
+// judged turns the "not judged" marker of checkCase into a counted discard.
+func judged(s *rt.Section, f *rt.Failure) *rt.Failure {
+	if f != nil && f.Signature == discardOpLimit {
+		s.Discard("op-count-limit")
+		return nil
+	}
+	return f
+}
+
 func TestProp(t *testing.T) {
 	run := rt.Begin(t, "C15")
 	defer run.Finish()
 
-	run.Check("rollfn", 1200000, 20000000,
+	run.Check("rollfn", 800000, 20000000,
 		"direct calls of the exported roll functions with a seeded PCG source: Roll(sides), RollCommon(times 1..300, sides 1..2e9, optional min<=max clamps, keep-low/keep-high/drop-low/drop-high n>=1), RollCoC(bonus|penalty, 0..6 extra dice), RollFate; mode -1 and +1 must leave the source untouched, equal kept x clamp(1) / kept x clamp(sides) for RollCommon (1 / sides for Roll), and bracket 1..200 mode-0 rolls; non-trivial = RollCommon with a keep/drop or clamp, or CoC/Fate; distinct by parameters",
 		func(t *rapid.T, s *rt.Section) {
 			c := drawFnCase(t)
@@ -1317,8 +1414,8 @@ func TestProp(t *testing.T) {
 			s.Report(t, checkFn(c, s, skip))
 		})
 
-	run.Check("term", 30000, 400000,
-		"one dice term run as a whole program on three VMs (DiceMinMode, DiceMaxMode, 2..6 seeded random runs; 1 in 7 min/max runs on an unseeded VM): XdY / dY / Xd / d (DefaultDiceSideExpr unset, a number or a dice expression), operands plain, parenthesised, (a+b) or a nested small XdY, modifiers k K kh q Q kl dh dl with or without count, 优势/劣势, min/max clamp, chains AdBdC, Fate f/F, CoC b/p with 0..9 dice; non-trivial = the term has a modifier, a chain, or is CoC/Fate; distinct by source text",
+	run.Check("term", 24000, 250000,
+		"one dice term run as a whole program on three VMs (DiceMinMode, DiceMaxMode, 2..6 seeded random runs; 1 in 7 min/max runs on an unseeded VM): XdY / dY / Xd / d (DefaultDiceSideExpr unset, a number or a dice expression), operands plain, parenthesised, (a+b) or a nested small XdY, modifiers k K kh q Q kl dh dl with or without count, 优势/劣势, min/max clamp, chains AdBdC, Fate f/F, CoC b/p with 0..9 dice, and the configurations of WoD XaYmZkN (Y = 0 or above the sides) and Double Cross XcYmZ (Y above the sides) that cannot add dice; non-trivial = the term has a modifier, a chain, or is not XdY; distinct by source text",
 		func(t *rapid.T, s *rt.Section) {
 			c := drawTermCase(t)
 			skip := false
@@ -1332,11 +1429,11 @@ func TestProp(t *testing.T) {
 			}
 			s.Sample(h, c.Src)
 			s.Crumb(c)
-			s.Report(t, checkCase(c, s, skip))
+			s.Report(t, judged(s, checkCase(c, s, skip)))
 		})
 
-	run.Check("expr", 24000, 300000,
-		"expressions monotone in their dice: sums, products with a non-negative constant, products of two non-negative dice expressions, quotients by a positive constant, redundant parentheses, over 1..4 terms of the term section, optionally through 1..2 computed values (&x = e) or functions (with and without return) whose bodies are evaluated in sub-VMs; same three-VM oracle (attained bounds when every term is XdY); cases whose magnitude could exceed 1e15 are discarded; non-trivial = an operator or definition is present and some term has a modifier or is CoC/Fate; distinct by source text",
+	run.Check("expr", 16000, 150000,
+		"expressions monotone in their dice: sums, products with a non-negative constant, products of two non-negative dice expressions, quotients by a positive constant, redundant parentheses, over 1..4 terms of the term section, optionally through 1..2 computed values (&x = e) or functions (with and without return) whose bodies are evaluated in sub-VMs (bodies use only XdY/dY forms: default-sides dice inside a body crash today, which is not this property); same three-VM oracle (attained bounds when every term is XdY); cases whose magnitude could exceed 1e15 are discarded; non-trivial = an operator or definition is present and some term has a modifier or is CoC/Fate; distinct by source text",
 		func(t *rapid.T, s *rt.Section) {
 			c := drawExprCase(t)
 			if exprMax(c.Main, c.Defs) > 1e15 {
@@ -1361,7 +1458,7 @@ func TestProp(t *testing.T) {
 			}
 			s.Sample(h, c.Src)
 			s.Crumb(c)
-			s.Report(t, checkCase(c, s, skip))
+			s.Report(t, judged(s, checkCase(c, s, skip)))
 		})
 
 	sp := enumSpace{xs: []int64{1, 2, 3}, ys: []int64{1, 2, 4, 6}, ns: []int64{1, 2, 3, 4}, cs: []int64{0, 1, 2, 3, 7}, seeds: 3}
@@ -1382,7 +1479,7 @@ func TestReplay(t *testing.T) {
 		if err := json.Unmarshal(b, &c); err != nil || c.Main == nil {
 			return s.NewFailure("replay", "replay:bad-case", nil, fmt.Sprint(err), "")
 		}
-		return checkCase(&c, s, false)
+		return judged(s, checkCase(&c, s, false))
 	}
 	rt.Replay(t, "C15", map[string]rt.ReplayFunc{
 		"term": vmCase, "expr": vmCase, "enum": vmCase,
